@@ -583,7 +583,24 @@ def single_assignments(fn: ast.AST) -> dict[str, ast.expr]:
                 isinstance(n.target, ast.Name):
             val[n.target.id] = n.value
     return {k: v for k, v in val.items() if count.get(k) == 1
-            and k not in params}
+            and k not in params and not creates_object(v)}
+
+
+def creates_object(v: ast.expr) -> bool:
+    """Does `v` create a mutable object whose identity matters (a list /
+    dict / set display or comprehension, an array constructor)?  Such a
+    local is mutated through its name and must never be inlined."""
+    if isinstance(v, (ast.List, ast.Dict, ast.Set, ast.ListComp,
+                      ast.DictComp, ast.SetComp)):
+        return True
+    if isinstance(v, ast.Call):
+        f = v.func
+        nm = f.attr if isinstance(f, ast.Attribute) else (
+            f.id if isinstance(f, ast.Name) else "")
+        return nm in ("zeros", "empty", "ones", "full", "array", "copy",
+                      "list", "dict", "set", "zeros_like", "empty_like",
+                      "Counter", "defaultdict", "StringIO", "deque")
+    return False
 
 
 def inline_locals(fn: ast.AST, e: ast.expr, depth: int = 6,
